@@ -94,7 +94,7 @@ def build(tier):
         # keep the cache small: drop all but the 3 most recent trees
         trees = sorted((p for p in glob.glob(os.path.join(CACHE, '*')) if os.path.isdir(p)), key=os.path.getmtime)
         os.utime(os.path.join(CACHE, key))
-        for old in trees[:-3]:
+        for old in trees[:-int(os.environ.get('COCLS_CACHE_KEEP', '3'))]:
             if os.path.basename(old) != key:
                 shutil.rmtree(old, ignore_errors=True)
     finally:
